@@ -62,6 +62,28 @@ class _Subst(ast.NodeTransformer):
         return node
 
 
+def inline_single_return_calls(fn, expr, module_find=None, depth: int = 0):
+    """`expr` with every call of a *single-return* helper — a function nested in `fn`, or found by `module_find(name)` — replaced by the
+    helper's return expression, the parameters substituted by the arguments.  Only helpers whose body is one `return E` (after an
+    optional docstring) are inlined; anything else is left as it is."""
+    import copy as _copy
+    local = {f.name: f for f in ast.walk(fn) if isinstance(f, ast.FunctionDef) and f is not fn}
+
+    class _Inline(ast.NodeTransformer):
+        def visit_Call(self, node):
+            self.generic_visit(node)
+            if isinstance(node.func, ast.Name):
+                h = local.get(node.func.id) or (module_find(node.func.id) if module_find is not None else None)
+                if isinstance(h, ast.FunctionDef) and not node.keywords:
+                    body = [b for b in h.body if not (isinstance(b, ast.Expr) and isinstance(b.value, ast.Constant))]
+                    ps = [a.arg for a in h.args.args]
+                    if len(body) == 1 and isinstance(body[0], ast.Return) and body[0].value is not None and len(ps) == len(node.args):
+                        return ast.copy_location(_Subst(dict(zip(ps, node.args))).visit(_copy.deepcopy(body[0].value, {id(body[0]): body[0]})), node)
+            return node
+    out = _Inline().visit(_copy.deepcopy(expr, {id(getattr(expr, "_parent", None)): getattr(expr, "_parent", None)}))
+    return ast.fix_missing_locations(out)
+
+
 def unroll_literal_loops(fn):
     """a copy of the function in which every `for a, b in ((x1, y1), (x2, y2)): body` over a *literal* tuple / list is replaced by the
     bodies with a, b substituted — the table-driven form of two parallel blocks reads like the blocks themselves.  Loops whose body
